@@ -23,8 +23,10 @@ import subprocess
 import sys
 import threading
 
-from mc import docspace, sched
-from mc.ey import M, T, get_citations, ser, short_exc, tokenizer
+os.environ["VERIF_SHADOW_SET"] = "1"  # mc.ey then imports eyecite with `set` shadowed (import-time sets too)
+
+from mc import docspace, sched  # noqa: E402
+from mc.ey import M, T, get_citations, ser, short_exc, tokenizer  # noqa: E402
 from mc.kernel import Stats, VERIF, h64
 
 ID = "C15"
@@ -48,7 +50,7 @@ ASSUMPTIONS = [
     "a freshly forked child of a parent that has never run extraction stands for a fresh process (lazy caches are cold)",
 ]
 
-A1 = docspace.A0[:24] + ["supra,§,", "1 CCH Unemployment Ins. Rep. 1", "v.§§", "AFF'D§ 3", "supra§", "1 Wash. 2d 3", "Id.§"]
+A1 = docspace.A0[:24] + ["supra,§,", "1 CCH Unemployment Ins. Rep. 1", "v.§§", "AFF'D§ 3", "supra§", "1 Wash. 2d 3", "Id.§", "Marvin v. Marvin, 18 Cal. 3d 660 (1976). ", "Marvin at 670", "<i>Marvin</i>"]
 SEAM_MODULES = ["tokenizers", "models", "find", "resolve", "helpers", "utils", "annotate", "clean"]
 OPS = [
     ("t1", {"text": "Foo v. Bar, 1 U.S. 1 (1999). Id. at 5. supra,§,"}),
@@ -64,60 +66,14 @@ THREAD_HARNESSES = [
     ("Foo, supra, at 3.", "Id. at 5. § 2"),
     ("Foo v. Bar, 1 P.3d 1, 5 (Wyo. 2001)", "X v. Y, 2 P.3d 2 (Wyo. 2002)"),
 ]
-BOUND = {"quick": {"line": 1, "opcode": 0}, "thorough": {"line": 2, "opcode": 1}}
-VISITS = 3  # each source line is a preemption point for its first 3 executions per thread
+# (granularity, preemption bound, visits): each source line (opcode) is a preemption point for its first
+# `visits` executions per thread, which bounds the points contributed by long loops
+THREAD_CONFIGS = {
+    "quick": [("line", 1, 3)],
+    "thorough": [("line", 1, 8), ("line", 2, 1), ("opcode", 1, 1)],
+}
 
-CTX = {"plan": {}, "log": [], "active": False}
-
-
-def _stable_key(x):
-    if isinstance(x, M.TokenExtractor):
-        return (0, _EX_INDEX.get(id(x), -1), "")
-    return (1, 0, type(x).__name__ + repr(x))
-
-
-_EX_INDEX = {}
-
-
-class CSet(set):
-    """set subclass whose iteration order is decided by the explorer (default: a stable canonical order)."""
-
-    def __iter__(self):
-        items = sorted(set.__iter__(self), key=_stable_key)
-        if not CTX["active"]:
-            return iter(items)
-        j = len(CTX["log"])
-        CTX["log"].append(len(items))
-        spec = CTX["plan"].get(j)
-        if spec is not None and len(items) > 1:
-            items = apply_order(items, spec)
-        return iter(items)
-
-
-def apply_order(items, spec):
-    kind = spec[0]
-    n = len(items)
-    if kind == "perm":
-        if len(spec[1]) != n:
-            return items
-        return [items[i] for i in spec[1]]
-    if kind == "rev":
-        return items[::-1]
-    if kind == "front":
-        i = spec[1] % n
-        return [items[i]] + items[:i] + items[i + 1 :]
-    if kind == "back":
-        i = spec[1] % n
-        return items[:i] + items[i + 1 :] + [items[i]]
-    return items
-
-
-def order_menu(n):
-    if n <= 1:
-        return []
-    if n <= 5:
-        return [("perm", list(p)) for p in itertools.permutations(range(n))][1:]
-    return [("rev",)] + [("front", i) for i in range(1, n)] + [("back", i) for i in range(0, n - 1)]
+from mc.seam import CTX, CSet, _EX_INDEX, apply_order, order_menu  # noqa: E402,F401
 
 
 def install_seam():
@@ -180,7 +136,7 @@ G = {}
 
 
 def bounds(tier):
-    return {"setorder_alphabet": len(A1), "setorder_depth": 2, "tie_strings": len(G.get("ties", [])), "max_deviating_iterations": 1 if tier == "quick" else 2, "hash_seeds": 4 if tier == "quick" else 32, "history_len": 3, "operations": [o[0] for o in OPS], "thread_harnesses": len(THREAD_HARNESSES), "preemption_bound": BOUND[tier], "scheduling_point_visits_per_line": VISITS}
+    return {"setorder_alphabet": len(A1), "setorder_depth": 2, "tie_strings": len(G.get("ties", [])), "max_deviating_iterations": 1 if tier == "quick" else 2, "hash_seeds": 4 if tier == "quick" else 32, "history_len": 3, "operations": [o[0] for o in OPS], "thread_harnesses": len(THREAD_HARNESSES), "thread_configs_(granularity,preemption_bound,visits_per_line)": THREAD_CONFIGS[tier]}
 
 
 # ---- setorder -----------------------------------------------------------------------------------
@@ -458,15 +414,15 @@ def run_histories(st, sh):
 # ---- threads ------------------------------------------------------------------------------------
 
 
-def one_execution(h, gran, prefix):
+def one_execution(h, gran, prefix, visits=3):
     texts = THREAD_HARNESSES[h]
     opfiles = ("tokenizers.py", "models.py") if gran == "opcode" else ()
     bodies = [lambda t=t: sers(get_citations(t)) for t in texts]
-    return sched.Record(sched.Execution(bodies, prefix, opfiles, visits=VISITS).run())
+    return sched.Record(sched.Execution(bodies, prefix, opfiles, visits=visits).run())
 
 
-def cold_execution(h, gran, prefix):
-    status, rec = in_fork(lambda: one_execution(h, gran, prefix))
+def cold_execution(h, gran, prefix, visits=3):
+    status, rec = in_fork(lambda: one_execution(h, gran, prefix, visits))
     if status != "ok":
         raise sched.Divergence(f"execution child failed: {rec}")
     return rec
@@ -480,9 +436,9 @@ def sequential_expected(h):
 
 
 def _thread_task(task):
-    h, gran, bound, prefixes, expected = task
+    h, gran, bound, prefixes, expected, visits = task
     st = Stats()
-    p = st.part(f"threads-{gran}")
+    p = st.part(f"threads-{gran}-b{max(bound, 0) if bound >= 0 else 'root'}-v{visits}")
     texts = THREAD_HARNESSES[h]
     stats = {}
 
@@ -491,7 +447,7 @@ def _thread_task(task):
         st.traces += 1
         p["evaluations"] += 1
         sw = sum(1 for c in x.choices if c != 0)
-        key = h64([h, gran, x.choices])
+        key = h64([h, gran, visits, x.choices])
         st.states.add(key)
         st.transitions += len(x.points)
         if sw:
@@ -505,12 +461,12 @@ def _thread_task(task):
             k = next(i for i in range(len(got)) if got[i] != expected[i])
             det = got[k] if isinstance(got[k], tuple) else diff_brief(expected[k], got[k])
             sched_ = [i for i, c in enumerate(x.choices) if c != 0]
-            case = {"part": "threads", "h": h, "gran": gran, "choices": _compress(x.choices)}
+            case = {"part": "threads", "h": h, "gran": gran, "visits": visits, "choices": _compress(x.choices)}
             st.violation(case, f"thread-schedule: thread {k} ({texts[k]!r}) result differs from the sequential run under the schedule switching at points {sched_}: {det}", label="thread-schedule")
 
     try:
         for prefix, sig in prefixes:
-            sched.explore_with(lambda pre: cold_execution(h, gran, pre), prefix, sig, bound, on_exec, stats)
+            sched.explore_with(lambda pre: cold_execution(h, gran, pre, visits), prefix, sig, bound, on_exec, stats)
     except sched.Divergence as e:
         st.extra.setdefault("harness_errors", []).append(f"scheduler divergence: {e}")
     st.extra["schedule_points"] = stats.get("points", 0)
@@ -558,13 +514,10 @@ def explore_threads_cold(tier):
     total = Stats()
     tasks = []
     for h in range(len(THREAD_HARNESSES)):
-        for gran in ("line", "opcode"):
-            b = BOUND[tier][gran]
-            if gran == "opcode" and b == 0 and h > 0:
-                continue
+        for gran, b, visits in THREAD_CONFIGS[tier]:
             try:
                 expected = sequential_expected(h)
-                root = cold_execution(h, gran, [])
+                root = cold_execution(h, gran, [], visits)
             except sched.Divergence as e:
                 total.extra.setdefault("harness_errors", []).append(str(e))
                 continue
@@ -572,10 +525,10 @@ def explore_threads_cold(tier):
                 total.extra.setdefault("harness_errors", []).append(root.error)
                 continue
             kids = sched.children_of(root, b)
-            tasks.append((h, gran, -1, [([], None)], expected))
+            tasks.append((h, gran, -1, [([], None)], expected, visits))
             chunk = max(1, len(kids) // 64)
             for i in range(0, len(kids), chunk):
-                tasks.append((h, gran, b, kids[i : i + chunk], expected))
+                tasks.append((h, gran, b, kids[i : i + chunk], expected, visits))
     with mp.get_context("fork").Pool(16) as pool:
         for st in pool.imap_unordered(_thread_task, tasks, chunksize=1):
             total.merge(st)
@@ -650,7 +603,7 @@ def replay(case):
         return [{"msg": f"{lab}: {det}", "label": lab} for lab, det in check_history(case["hist"], case["tok"], base)]
     if part == "threads":
         expected = sequential_expected(case["h"])
-        x = cold_execution(case["h"], case["gran"], _expand(case["choices"]))
+        x = cold_execution(case["h"], case["gran"], _expand(case["choices"]), case.get("visits", 3))
         got = [r[1] if r[0] == "ok" else r for r in x.results]
         if got != expected:
             return [{"msg": f"thread-schedule: results differ from the sequential run under the recorded schedule: {got!r:.400}", "label": "thread-schedule"}]
